@@ -1,9 +1,79 @@
 import Driver.Util
 import DispatchVerif.Core.Time
+import DispatchVerif.Core.Base64P
+import DispatchVerif.Core.Base32P
+import DispatchVerif.Core.Base32HexP
+import DispatchVerif.Core.Utf8F
+import DispatchVerif.Core.Utf16P
 /-! `dvdriver`: line-protocol driver over the Lean models — the same definitions the theorems are about.
     One operation per line in, one canonical result per line out; the C harnesses answer the same lines with
     the real library and the check diffs the two streams. -/
 open Drv
+
+/-! ### data transforms: `X2 <in> <out> <hex>|<hex>|…` (one region per part) -/
+
+inductive TR where
+  | bytes (rs : List (List Nat))    -- a data object, by regions
+  | null
+  | oob                             -- the model reads outside the object (undefined behaviour in C)
+
+/-- the `decode` hook of the input format -/
+def stage1 (fmt : String) (rs : List (List Nat)) : TR :=
+  let one (o : Option (List Nat)) : TR := match o with
+    | none => .null
+    | some bs => .bytes (if bs.isEmpty then [] else [bs])
+  if fmt = "none" ∨ fmt = "utf8" then .bytes rs
+  else if fmt = "b64" then one ((B64.decRegions rs {}).map (·.out))
+  else if fmt = "b32" then one ((B32.decRegions rs {}).map (·.out))
+  else if fmt = "b32hex" then one ((B32H.decRegions rs {}).map (·.out))
+  else if fmt = "utf16le" ∨ fmt = "utf16be" then
+    match Utf16P.fromUtf16 (fmt = "utf16be") rs with
+    | .ok out _ _ => .bytes (if out.isEmpty then [] else [out])
+    | .fail _ => .null
+    | .oob _ => .oob
+  else .null
+
+/-- the `encode` hook of the output format -/
+def stage2 (fmt : String) (rs : List (List Nat)) : TR :=
+  let flat := rs.flatten
+  if fmt = "none" then .bytes [flat]
+  else if fmt = "b64" then .bytes [B64.encode flat]
+  else if fmt = "b32" then .bytes [B32.encode flat]
+  else if fmt = "b32hex" then .bytes [B32H.encode flat]
+  else if fmt = "utf8" then .bytes [Utf16P.withoutBom flat]
+  else if fmt = "utf16le" ∨ fmt = "utf16be" then
+    if rs.isEmpty then .bytes [] else
+    -- two models of the same loop must agree: the code-shaped one and the position-shaped one the
+    -- fragmentation theorem is about
+    let a := Utf8P.toUtf16 rs
+    let b := Utf8P.toUtf16F flat (rs.map List.length)
+    let same := match a, b with
+      | .ok u _, .ok v _ => u == v
+      | .fail, .fail => true
+      | .oob, .oob => true
+      | _, _ => false
+    if !same then .bytes [[77, 79, 68, 69, 76, 83]] else   -- "MODELS" : never equal to a real result of even length? flagged by the diff
+    match a with
+    | .ok us _ => .bytes [us.flatMap fun u => if fmt = "utf16be" then [u / 256, u % 256] else [u % 256, u / 256]]
+    | .fail => .null
+    | .oob => .oob
+  else .null
+
+def isBase (f : String) : Bool := f = "none" || f = "b64" || f = "b32" || f = "b32hex"
+def isUtf (f : String) : Bool := f = "utf8" || f = "utf16le" || f = "utf16be"
+
+def transform (fi fo spec : String) : String :=
+  let rs := ((spec.splitOn "|").map parseHexBytes).filter (fun r => !r.isEmpty)
+  if !((isBase fi && isBase fo) || (isUtf fi && isUtf fo)) then "NULL"
+  else if rs.isEmpty then "-"
+  else match stage1 fi rs with
+    | .null => "NULL"
+    | .oob => "OOB"
+    | .bytes t1 =>
+      match stage2 fo t1 with
+      | .null => "NULL"
+      | .oob => "OOB"
+      | .bytes t2 => toHex t2.flatten
 
 def handle (line : String) : String :=
   match line.trimAscii.toString.splitOn " " with
@@ -23,6 +93,7 @@ def handle (line : String) : String :=
     match w.toNat?, nu.toNat?, nm.toNat?, nw.toNat? with
     | some w, some a, some b, some c => toString (TimeP.timeout w a b c)
     | _, _, _, _ => "bad-op"
+  | ["X2", fi, fo, spec] => transform fi fo spec
   | _ => "bad-op"
 
 partial def loop (h : IO.FS.Stream) (out : IO.FS.Stream) : IO Unit := do
